@@ -11,13 +11,13 @@ TECHNIQUE = ("Coq proofs (induction over histories; invariant: the store is a st
              "and equals the last snapshot) about the Gallina model of Session::send_process / FIXWriter::write_batch "
              "and the persisters as the session uses them; model tied to the real Session + Connection + File/Memory "
              "persister by differential execution of whole histories (byte-exact wire and store traces, ASan/UBSan)")
-LEVEL_TEXT = ("c17_store_partial: for every schema whose admin flags are the session-level types, role, persister, start "
-              "number and every history START;op* of plain SEND/BATCH/CLOCK operations in which every batch of two or more "
-              "ends with an administrative message, each new application message on the modelled wire is stored under its "
-              "own MsgSeqNum with exactly its wire bytes and no administrative message is stored. c17_store_step: the same "
-              "for one send_process call in any state inside or between batches. Refuted (F21, confirmed on the real "
-              "code): the last message of a batch is persisted as the empty string; a message with a custom sequence "
-              "number is stored under next_send.")
+LEVEL_TEXT = ("c17_store: for every schema whose admin flags are the session-level types, role, persister, start number and "
+              "every history START;op* of plain SEND/BATCH/CLOCK operations, each new application message on the modelled "
+              "wire -- single or in ANY position of a batch -- is stored under its own MsgSeqNum with exactly its wire bytes "
+              "and no administrative message is stored. c17_store_step: the same for one send_process call in any state "
+              "inside or between batches. c17_store_orig_refuted: the code before d862447 stored the last message of a batch "
+              "as the empty string (F21). Still true: a message with a custom sequence number is stored under next_send "
+              "(c17_custom_refuted).")
 LEVEL_NOTE = ("Trusted: Coq kernel; extraction; the hand transcription coq/Sess/*.v (checked by the correspondence run); "
               "harness; the persister model (map seq -> bytes, duplicate put refused, C-string truncation) is C17's own "
               "small model, tied through Persister::get after every operation. Theorems are for send-side histories; "
@@ -103,8 +103,8 @@ def gen_cases(rng, tier):
 
 
 def c_batch_last_app(case, r, m):
-    """negation of hypothesis batch17 of c17_store_partial: a BATCH of two or more whose last message is an
-    application message (F21)."""
+    """a BATCH of two or more whose last message is an application message (F21, fixed by d862447: only used by
+    the fixed entry, which suppresses nothing)."""
     for op in case.line.split("|"):
         t = op.split(" ")
         if t[0] == "BATCH" and len(t) > 1:
